@@ -3,17 +3,20 @@
 //
 // The REAL iavl.MutableTree runs in-process over a memdb.  Every case owns
 //
-//   - the PRIMARY tree (the object under test; configuration from the `new`
-//     line, default = what tm2/pkg/store/iavl.StoreConstructor uses:
-//     cache 10000, skipFastStorageUpgrade = true), whose outputs are the
-//     implementation column compared with the Lean model, and
+//   - the PRIMARY tree (the object under test; cache size, InitialVersion and
+//     flush threshold from the `new` line, default = what
+//     tm2/pkg/store/iavl.StoreConstructor uses: cache 10000,
+//     skipFastStorageUpgrade = true, flush threshold 100000), whose outputs are
+//     the implementation column compared with the Lean model, and
 //   - a SHADOW tree on its own memdb that replays exactly the same mutating
-//     history under a deliberately different configuration (other cache size,
-//     fast-node index switched the other way, other flush threshold, closed and
-//     reopened from the database after every SaveVersion).  The shadow is only
-//     used by the oracle: equal histories must give equal answers, versions
-//     and root hashes whatever the configuration ("the root hash is a function
-//     of the version contents and history").
+//     history under a deliberately different configuration: other cache size
+//     (0 or 3), the fast-node index switched ON, the small flush threshold 300
+//     when the primary has the default one, and closed + reopened from the
+//     database after every SaveVersion of a new version.  The shadow is only
+//     used by the oracle: equal histories must give equal answers, versions,
+//     root hashes and proofs whatever the configuration ("the root hash is a
+//     function of the version contents and history").  It is dropped for the
+//     rest of a case once it has diverged.
 //
 // op lines (K, V lowercase hex, `e` = empty; S, E hex or `-` = nil/unbounded;
 // VER, I int64 decimal):
@@ -21,14 +24,19 @@
 //	new CACHE IV FLUSH          fresh database + tree (IV 0 = no InitialVersion option;
 //	                            FLUSH = batch flush threshold); the primary never uses the
 //	                            fast-node index (gno's StoreConstructor never does), the shadow always
-//	set K V | rm K              MutableTree.Set / Remove on the working tree
+//	set K V | rm K              MutableTree.Set / Remove on the working tree (V `-` = nil value)
 //	get K | has K | gwi K | gbi I | size | height | ver
 //	it A S E INC                A = a|d; INC 0: ImmutableTree.IterateRange (the call the store
 //	                            makes) cross-checked with the dbm Iterator; INC 1: IterateRangeInclusive
-//	save | hash | whash | rollback | load VER | lvo VER | delto VER | reopen
+//	                            (panic:nilderef on a working tree with an unsaved leaf in range)
+//	save | hash | whash | rollback | load VER | reopen
+//	lvo VER                     LoadVersionForOverwriting, VER >= 1 only (err:badop otherwise)
+//	delto VER                   DeleteVersionsTo; refused (err:guard, not executed) when VER is at or
+//	                            above the version the working tree was loaded from while newer versions exist
 //	vex VER | avail | vget VER K
 //	iget VER K | ihas VER K | igwi VER K | igbi VER I | isize VER | iheight VER | ihash VER |
-//	iit VER A S E INC | ishape VER              reads of a saved version through GetImmutable
+//	iit VER A S E INC | ishape VER              reads of a saved version: VersionExists gate, then
+//	                            GetImmutable (what store.GetImmutable does); ishape = post-order Export
 //	prove VER K                 ics23 proof exactly as store.Query builds it, verified through
 //	                            types.CommitmentOp (the store's proof operator)
 //
@@ -38,13 +46,21 @@
 // tree and one per retained version, driven by the property statement only:
 // every read of the working tree and of every retained version must equal the
 // map's answer (value, presence, rank, i-th entry, size, range filter of the
-// sorted keys in both directions); after every mutating op one retained version
-// is re-read completely and after save/load/delete/reopen ALL of them
-// ("saved versions are immutable"); shadow vs primary as above; and for proofs:
-// the proof of the true answer verifies against the version's root hash, and
-// every mutation (other value, other key, flipped root bit, flipped byte in
-// every proof component, existence proof presented for an absent key,
-// neighbours of a present key presented as an absence proof) is rejected.
+// sorted keys in both directions, inclusive or not); after every mutating op one
+// retained version is re-read completely and after save/load/delete/reopen ALL of
+// them, on both trees ("saved versions are immutable"); shadow vs primary as
+// above; and for proofs: the proof of the true answer verifies against the
+// version's root hash (unless ics23 cannot express it: empty key / empty value /
+// no neighbour), and every mutation (other value, flipped value bit, other key,
+// flipped root bit, flipped byte in every proof component, truncated path,
+// existence proof presented as absence and vice versa, absence proof re-used for
+// every present key, neighbours of a present key presented as an absence proof,
+// absence proof without one of its neighbours) is rejected.
+//
+// VIOL classes that are recorded findings of the unchanged tree
+// (known_findings/C30.json): ghost-version, flush-split, fast-stale-unsaved,
+// fast-empty-key.  Every other class (read, iterate, set, remove, immutable,
+// version-lost, prune-fail, reopen, balance, config-dependent, proof-*) fails the run.
 package main
 
 import (
